@@ -19,22 +19,32 @@ Definition is_nil (b : bytes) : bool := match b with [] => true | _ => false end
 (* ---- the receiving network: what sock.recv will see --------------------- *)
 (* end of list = the peer has closed (recv returns b'').  A chunk is one
    delivery; sock.recv(n) takes at most n bytes of the head chunk. *)
-Inductive event := Chunk (b : bytes) | TimeoutEv.
+(* An interruption is a call of the underlying socket that raises instead of
+   transferring bytes: socket.timeout, or any other socket error
+   (EWOULDBLOCK/BlockingIOError on a non-blocking socket, EINTR, ECONNRESET,
+   ...; code = errno). *)
+Inductive event := Chunk (b : bytes) | TimeoutEv | ErrorEv (code : nat).
 Definition net := list event.
 
 Fixpoint flat (n : net) : bytes :=
   match n with
   | [] => []
   | Chunk b :: r => b ++ flat r
-  | TimeoutEv :: r => flat r
+  | _ :: r => flat r
   end.
 
-Fixpoint timeouts (n : net) : nat :=
+(* the interruptions the network will produce, in order, as the exceptions the
+   caller of BufferedSocket sees (socket.timeout is re-raised as Timeout, any
+   other error propagates unchanged) *)
+Fixpoint intrs (n : net) : list exn :=
   match n with
-  | [] => 0
-  | Chunk _ :: r => timeouts r
-  | TimeoutEv :: r => S (timeouts r)
+  | [] => []
+  | Chunk _ :: r => intrs r
+  | TimeoutEv :: r => Timeout :: intrs r
+  | ErrorEv c :: r => OSErr c :: intrs r
   end.
+
+Definition timeouts (n : net) : nat := length (intrs n).
 
 (* every delivery carries at least one byte (an empty delivery is
    indistinguishable from a close for any user of the socket API) *)
@@ -42,19 +52,21 @@ Fixpoint wf_net (n : net) : bool :=
   match n with
   | [] => true
   | Chunk b :: r => negb (is_nil b) && wf_net r
-  | TimeoutEv :: r => wf_net r
+  | _ :: r => wf_net r
   end.
 
 (* ---- the sending network: what sock.send will do ------------------------- *)
 (* SAccept k: the kernel takes min(k+1, len data) bytes; STimeoutEv: the call
-   raises socket.timeout.  Script exhausted = everything is accepted. *)
-Inductive sev := SAccept (k : nat) | STimeoutEv.
+   raises socket.timeout; SErrorEv c: it raises another socket error.  Script
+   exhausted = everything is accepted. *)
+Inductive sev := SAccept (k : nat) | STimeoutEv | SErrorEv (code : nat).
 
-Fixpoint stimeouts (s : list sev) : nat :=
+Fixpoint sintrs (s : list sev) : list exn :=
   match s with
-  | [] => 0
-  | SAccept _ :: r => stimeouts r
-  | STimeoutEv :: r => S (stimeouts r)
+  | [] => []
+  | SAccept _ :: r => sintrs r
+  | STimeoutEv :: r => Timeout :: sintrs r
+  | SErrorEv c :: r => OSErr c :: sintrs r
   end.
 
 (* ---- maxsize arguments ---------------------------------------------------- *)
@@ -113,8 +125,11 @@ Definition outcome_eqb (a b : outcome) : bool :=
   | _, _ => false
   end.
 
-Definition is_timeout (o : outcome) : bool :=
-  match o with OExn Timeout => true | _ => false end.
+(* Timeout or a propagated socket error: the call was interrupted by the network *)
+Definition is_intr_exn (e : exn) : bool :=
+  match e with Timeout | OSErr _ => true | _ => false end.
+Definition is_interrupt (o : outcome) : bool :=
+  match o with OExn e => is_intr_exn e | _ => false end.
 
 (* socketutils' own exception classes beyond the three in Prelude *)
 Definition NetstringInvalidSize := OtherExn 1.
